@@ -141,11 +141,14 @@ static int inject(int s, int fd) {
 static const struct { const char* n; int e; } errnos[] = { {"EINTR", EINTR}, {"EAGAIN", EAGAIN}, {"ENOBUFS", ENOBUFS},
   {"EMFILE", EMFILE}, {"ENFILE", ENFILE}, {"ENOMEM", ENOMEM}, {"EEXIST", EEXIST}, {"ENOSPC", ENOSPC}, {NULL, 0} };
 
-static int clobber_errno;
+static int clobber_errno, idle_metrics;
+static int eintr_after_pct;
 static int parse_fault(const char* a) {
   char buf[128], *p, *q; unsigned lo, hi;
   snprintf(buf, sizeof buf, "%s", a);
   if (!strcmp(buf, "clobber")) { clobber_errno = 1; return 0; }
+  if (!strcmp(buf, "idle-metrics")) { idle_metrics = 1; return 0; }
+  if (!strncmp(buf, "eintr-after:", 12)) { eintr_after_pct = atoi(buf + 12); return eintr_after_pct > 0 && eintr_after_pct <= 100 ? 0 : -1; }
   if (!strncmp(buf, "alloc:", 6)) {
     if (naflt >= MAXF) return -1;
     if (sscanf(buf + 6, "%u-%u", &lo, &hi) != 2) { if (sscanf(buf + 6, "%u", &lo) != 1) return -1; hi = lo; }
@@ -279,7 +282,35 @@ int epoll_ctl(int ep, int op, int fd, struct epoll_event* ev) {
   if (e) { errno = e; return -1; }
   return RAW(SYS_epoll_ctl, ep, op, fd, ev);
 }
-int epoll_pwait(int ep, struct epoll_event* ev, int n, int to, const sigset_t* ss) { INJ(S_epoll_pwait, -1); return RAW(SYS_epoll_pwait, ep, ev, n, to, ss, 8); }
+/* schedule token `eintr-after:PCT`: an EINTR injected into a call that sleeps with a timeout arrives only after real
+ * time has passed (PCT % of the timeout, 1..10 ms), as a periodic signal would deliver it.  Oracle evaluated here: the
+ * call is re-issued with the *remaining* time, never the full timeout again. */
+static long now_ms_floor(const struct timespec* t0) {
+  struct timespec t1; RAW(SYS_clock_gettime, CLOCK_MONOTONIC, &t1);
+  return (long) ((t1.tv_sec - t0->tv_sec) * 1000000000LL + (t1.tv_nsec - t0->tv_nsec)) / 1000000;
+}
+static long delay_for(long total_ms) { long w = total_ms * eintr_after_pct / 100; if (w > 10) w = 10; if (w > total_ms / 2) w = total_ms / 2; if (w < 1) w = 1; return w; }
+static int ep_prev_to = -2; static long ep_prev_wait;
+int epoll_pwait(int ep, struct epoll_event* ev, int n, int to, const sigset_t* ss) {
+  int e;
+  if (ep_prev_to != -2 && atomic_load(&armed) && !quiet_depth) {
+    if (to == -1 || to > ep_prev_to - ep_prev_wait + 2)
+      VIOL("eintr-timeout-not-reduced", "epoll_pwait(timeout=%d) was interrupted after %ld ms and re-issued with timeout=%d", ep_prev_to, ep_prev_wait, to);
+    ep_prev_to = -2;
+  }
+  e = inject(S_epoll_pwait, -1);
+  if (e == EINTR && eintr_after_pct && to >= 8) {
+    struct timespec t0; long r;
+    RAW(SYS_clock_gettime, CLOCK_MONOTONIC, &t0);
+    r = RAW(SYS_epoll_pwait, ep, ev, n, delay_for(to), ss, 8);
+    if (r != 0) return (int) r;                  /* something real happened first */
+    ep_prev_to = to; ep_prev_wait = now_ms_floor(&t0);
+    if (ep_prev_wait > to - 3) ep_prev_to = -2;  /* overslept (loaded machine): libuv may legitimately leave the poll */
+    errno = EINTR; return -1;
+  }
+  if (e) { errno = e; return -1; }
+  return RAW(SYS_epoll_pwait, ep, ev, n, to, ss, 8);
+}
 int eventfd(unsigned v, int fl) { int r; INJ(S_eventfd, -1); r = RAW(SYS_eventfd2, v, fl); setkind(r, 'e'); return r; }
 int inotify_init1(int fl) { int r; INJ(S_inotify_init1, -1); r = RAW(SYS_inotify_init1, fl); setkind(r, 'i'); return r; }
 int inotify_add_watch(int fd, const char* p, uint32_t m) { INJ(S_inotify_add_watch, -1); return RAW(SYS_inotify_add_watch, fd, p, m); }
@@ -301,7 +332,29 @@ int dup2(int a, int b) { int r; INJ(S_dup2, a); r = a == b ? (RAW(SYS_fcntl, a, 
 int dup3(int a, int b, int fl) { int r; INJ(S_dup3, a); r = RAW(SYS_dup3, a, b, fl); if (r >= 0 && r < MAXFD) fdkind[r] = kidx(a); return r; }
 pid_t waitpid(pid_t p, int* st, int o) { INJ(S_waitpid, -1); return RAW(SYS_wait4, p, st, o, 0); }
 int poll(struct pollfd* f, nfds_t n, int to) { INJ(S_poll, -1); return RAW(SYS_poll, f, n, to); }
-int nanosleep(const struct timespec* a, struct timespec* b) { INJ(S_nanosleep, -1); return RAW(SYS_nanosleep, a, b); }
+static long ns_prev_req = -2, ns_prev_wait;
+int nanosleep(const struct timespec* a, struct timespec* b) {
+  long req = (long) (a->tv_sec * 1000 + a->tv_nsec / 1000000); int e;
+  if (ns_prev_req != -2 && atomic_load(&armed) && !quiet_depth) {
+    if (req > ns_prev_req - ns_prev_wait + 2)
+      VIOL("eintr-timeout-not-reduced", "nanosleep(%ld ms) was interrupted after %ld ms and re-issued for %ld ms", ns_prev_req, ns_prev_wait, req);
+    ns_prev_req = -2;
+  }
+  e = inject(S_nanosleep, -1);
+  if (e == EINTR && eintr_after_pct && req >= 8) {
+    struct timespec t0, w; long el; long long left;
+    RAW(SYS_clock_gettime, CLOCK_MONOTONIC, &t0);
+    w.tv_sec = 0; w.tv_nsec = delay_for(req) * 1000000L;
+    RAW(SYS_nanosleep, &w, 0);
+    el = now_ms_floor(&t0);
+    left = (long long) a->tv_sec * 1000000000LL + a->tv_nsec - (long long) el * 1000000LL; if (left < 0) left = 0;
+    if (b) { b->tv_sec = left / 1000000000LL; b->tv_nsec = left % 1000000000LL; }     /* what the kernel reports as remaining */
+    ns_prev_req = req; ns_prev_wait = el;
+    errno = EINTR; return -1;
+  }
+  if (e) { errno = e; return -1; }
+  return RAW(SYS_nanosleep, a, b);
+}
 int fsync(int fd) { INJ(S_fsync, fd); return RAW(SYS_fsync, fd); }
 int fdatasync(int fd) { INJ(S_fdatasync, fd); return RAW(SYS_fdatasync, fd); }
 int ftruncate(int fd, off_t n) { INJ(S_ftruncate, fd); return RAW(SYS_ftruncate, fd, n); }
@@ -461,6 +514,7 @@ static void prologue(void) {
   atomic_store(&armed, 1);
   if (A("uv_loop_init", uv_loop_init(loop)) == 0) {
     loop_inited = 1;
+    if (idle_metrics) A("uv_loop_configure", uv_loop_configure(loop, UV_METRICS_IDLE_TIME));
     { unsigned s, k; OUT("count-init alloc %u", atomic_load(&nalloc));
       for (s = 0; s < S_N; s++) for (k = 0; k < K_N; k++) if (atomic_load(&occ[s][k]))
         OUT("count-init sys %s@%c %u", sname[s], kinds[k], atomic_load(&occ[s][k])); }
@@ -537,20 +591,32 @@ static void alloc_cb(uv_handle_t* h, size_t sug, uv_buf_t* b) { (void) h; (void)
 static unsigned csum(unsigned s, const char* p, size_t n) { while (n--) s = s * 31 + (unsigned char) *p++; return s; }
 
 /* ================================================================== scenario: timers + loop watchers + async */
-static struct { uv_timer_t *t1, *t2; uv_idle_t* idle; uv_prepare_t* prep; uv_check_t* chk; uv_async_t* as; int n1, n2, ni, np, nc, na; } tm;
-static void tm_async(uv_async_t* a) { (void) a; tm.na++; OUT("T timers t1=%d t2=%d idle=%d async=%d prepare>0=%d check>0=%d", tm.n1, tm.n2, tm.ni, tm.na, tm.np > 0, tm.nc > 0); bail(); }
+#define TM_FAR 60
+#define LATE_SLACK_MS 250
+static struct { uv_timer_t *t1, *t2, *t3; uint64_t t0; int n3; uv_idle_t* idle; uv_prepare_t* prep; uv_check_t* chk; uv_async_t* as; int n1, n2, ni, np, nc, na; } tm;
+static void tm_async(uv_async_t* a) { (void) a; tm.na++; OUT("T timers t1=%d t2=%d t3=%d idle=%d async=%d prepare>0=%d check>0=%d", tm.n1, tm.n2, tm.n3, tm.ni, tm.na, tm.np > 0, tm.nc > 0); bail(); }
 static void tm_t1(uv_timer_t* t) { (void) t; tm.n1++; }
-static void tm_t2(uv_timer_t* t) { if (++tm.n2 == 3) { A("uv_timer_stop", uv_timer_stop(t)); A("uv_async_send", uv_async_send(tm.as)); } }
+static void tm_t2(uv_timer_t* t) { if (++tm.n2 == 3) A("uv_timer_stop", uv_timer_stop(t)); }
+static void tm_t3(uv_timer_t* t) {       /* the far timer: due TM_FAR ms after the start, whatever interrupts the poll */
+  long ms = (long) ((uv_hrtime() - tm.t0) / 1000000); (void) t;
+  tm.n3++;
+  OUT("I far timer fired after %ld ms", ms);
+  if (ms < TM_FAR - 1) VIOL("timer-early", "%d ms timer fired after %ld ms", TM_FAR, ms);
+  if (ms > TM_FAR + LATE_SLACK_MS) VIOL("timer-late", "%d ms timer fired after %ld ms", TM_FAR, ms);
+  A("uv_async_send", uv_async_send(tm.as));
+}
 static void tm_idle(uv_idle_t* h) { if (++tm.ni == 2) uv_idle_stop(h); }
 static void tm_prep(uv_prepare_t* h) { (void) h; tm.np++; }
 static void tm_chk(uv_check_t* h) { (void) h; tm.nc++; }
 static void sc_timers(void) {
   tm.as = NEW(uv_async_t);
   if (A("uv_async_init", uv_async_init(loop, tm.as, tm_async))) { free(tm.as); return; }
-  tm.t1 = NEW(uv_timer_t); tm.t2 = NEW(uv_timer_t); tm.idle = NEW(uv_idle_t); tm.prep = NEW(uv_prepare_t); tm.chk = NEW(uv_check_t);
-  uv_timer_init(loop, tm.t1); uv_timer_init(loop, tm.t2); uv_idle_init(loop, tm.idle); uv_prepare_init(loop, tm.prep); uv_check_init(loop, tm.chk);
+  tm.t1 = NEW(uv_timer_t); tm.t2 = NEW(uv_timer_t); tm.t3 = NEW(uv_timer_t); tm.idle = NEW(uv_idle_t); tm.prep = NEW(uv_prepare_t); tm.chk = NEW(uv_check_t);
+  uv_timer_init(loop, tm.t1); uv_timer_init(loop, tm.t2); uv_timer_init(loop, tm.t3); uv_idle_init(loop, tm.idle); uv_prepare_init(loop, tm.prep); uv_check_init(loop, tm.chk);
   A("uv_timer_start", uv_timer_start(tm.t1, tm_t1, 1, 0));
   A("uv_timer_start", uv_timer_start(tm.t2, tm_t2, 1, 1));
+  uv_update_time(loop); tm.t0 = uv_hrtime();
+  A("uv_timer_start", uv_timer_start(tm.t3, tm_t3, TM_FAR, 0));
   A("uv_idle_start", uv_idle_start(tm.idle, tm_idle));
   A("uv_prepare_start", uv_prepare_start(tm.prep, tm_prep));
   A("uv_check_start", uv_check_start(tm.chk, tm_chk));
@@ -1065,6 +1131,10 @@ static void sc_os(void) {
   if (A("uv_resident_set_memory", uv_resident_set_memory(&rss)) == 0) OUT("T rss>0=%d", rss > 0);
   if (A("uv_uptime", uv_uptime(&up)) == 0) OUT("T uptime>0=%d", up > 0);
   A("uv_getrusage", uv_getrusage(&ru));
+  { uint64_t t0 = uv_hrtime(); long ms; uv_sleep(20); ms = (long) ((uv_hrtime() - t0) / 1000000);
+    OUT("T sleep done");
+    if (ms < 19) VIOL("sleep-early", "uv_sleep(20) returned after %ld ms", ms);
+    if (ms > 20 + 250) VIOL("sleep-late", "uv_sleep(20) returned after %ld ms", ms); }
   r = (int) uv_available_parallelism(); OUT("T parallelism>0=%d", r > 0);
   OUT("T memory total>0=%d", uv_get_total_memory() > 0); (void) uv_get_free_memory(); (void) uv_get_constrained_memory(); (void) uv_get_available_memory();
   len = sizeof buf; r = uv_get_process_title(buf, len); OUT("A uv_get_process_title %s", en(r));
